@@ -27,7 +27,15 @@ def make_client(p: Program, callbacks: Optional[List[Obj]] = None, cls="indi.cli
     o = client_opts(p)
     it.opts["inline"] = o["inline"]
     it.opts["instantiate"] = o["instantiate"]
-    it.opts["foreign_model"] = o["foreign_model"]
+    # what the scenario says about library calls (e.g. which callbacks are coroutine functions) also holds while the
+    # client is built and the callbacks are registered: a registration may classify its callback once, there
+    caller_fm = saved.get("foreign_model")
+
+    def fm(it_, callee, a, k, _d=o["foreign_model"]):
+        r = caller_fm(it_, callee, a, k) if caller_fm is not None else None
+        return r if r is not None else _d(it_, callee, a, k)
+
+    it.opts["foreign_model"] = fm
     it.opts["call_may_raise"] = None
     it.opts["assert_forks"] = False
     n_ev = len(it.events)
